@@ -14,6 +14,7 @@ RUNTIME_ATTR = {
     "database-client": {"db_server_ip": "server_ip_address", "server_password": "server_password"},
     "web-browser": {"target_url": "config.target_url"},
     "dns-server": {"domain_mapping": "dns_table"},
+    "dns-client": {"dns_server": "dns_server"},
     "ntp-client": {"ntp_server_ip": "ntp_server"},
     "ftp-server": {"server_password": "config.server_password"},
     "dos-bot": {"target_ip_address": "target_ip_address", "target_port": "target_port", "payload": "payload", "repeat": "repeat",
